@@ -54,6 +54,12 @@ class TypeOverwriting(Transformation):
             for n in type_graph.keys()
             if n.is_omittable() and not (
                 isinstance(n, tda.DeclarationNode) and n.decl.name == tda.RET
+            ) and not (
+                # The type arguments of this call are not part of the
+                # program's text (see TypeErasure), so they cannot carry
+                # the injected error.
+                isinstance(n, tda.TypeConstructorInstantiationCallNode)
+                and n.t.can_infer_type_args
             )
         ]
         if not candidate_nodes:
